@@ -41,6 +41,9 @@ def intern_table(sigs=None):
             names.add(n)
             names.update(req)
             names.update(opt)
+    # + every string the configuration layer knows (schema keys, actions, colours, registered object names, literals of factory.py)
+    from vt import schematab
+    names |= schematab.all_strings()
     return {s: i for i, s in enumerate(sorted(names))}
 
 
